@@ -188,17 +188,16 @@ func fillWriterQueue(gate chan struct{}, wg *sync.WaitGroup) bool {
 	for i := 0; i < queueCap; i++ {
 		parkWriterWorker(gate, wg)
 	}
-	// a queued operation waits for the parked worker; a refused one returns an error at once
+	// a queued operation waits for the parked worker; a refused one comes back at once (run inline since 0c40a4c,
+	// with errHighLoad before)
 	for i := 0; i < 200; i++ {
 		probe := stackless.NewWriter(io.Discard, func(io.Writer) stackless.Writer { return &gateInner{gw: newGateWriter(gate)} })
 		ch := make(chan error, 1)
 		wg.Add(1)
 		go func() { defer wg.Done(); ch <- probe.Flush() }()
 		select {
-		case err := <-ch:
-			if err != nil {
-				return true // refused: the queue is full
-			}
+		case <-ch:
+			return true // refused: the queue is full
 		case <-time.After(300 * time.Millisecond):
 		}
 	}
